@@ -1,9 +1,46 @@
 (* C12 — Patch application is all-or-nothing and exact when it succeeds.
-   Statements only; proofs are in Proofs/PatchProofs.v and Proofs/PatchAtomic.v.
+   Statements only; proofs are in Proofs/PatchProofs.v, Proofs/PatchAtomic.v, Proofs/FsProofs.v.
    Model: Model/Patch.v (parser, hunks, Workspace::apply_patch with the first-seen undo list) over
    the file-system model Base/Fs.v.  `apply_patch true` is the code after fix 6739939, `apply_patch
    false` the code before it. *)
-From RipV Require Import Base.Prelude Base.Fs Model.Patch Proofs.PatchProofs.
+From RipV Require Import Base.Prelude Base.Fs Model.Patch Proofs.FsProofs Proofs.PatchProofs Proofs.PatchAtomic.
+
+(* ---- ATOMICITY (the code after fix 6739939).  For every well-formed workspace tree f (unique
+   keys, every entry's ancestors are directories), every patch document (well-formed or not), every
+   operation sequence and every failure position inside every operation: if the apply fails, every
+   path holds the same file bytes as before (so no file is lost, none is changed, no new file
+   remains).  `file_at g p = None` covers both "absent" and "a directory". *)
+Theorem c12_atomic : forall (f : fs) (input : list N) (g : fs) (e : N),
+  fs_wf f -> apply_patch true [] f input = Failed g e -> forall p, file_at g p = file_at f p.
+Proof. exact apply_patch_atomic. Qed.
+Print Assumptions c12_atomic.
+
+Theorem c12_atomic_ops : forall (f : fs) (ops : list op) (g : fs) (e : N),
+  fs_wf f -> apply_ops true [] f ops = Failed g e -> forall p, file_at g p = file_at f p.
+Proof. exact apply_ops_atomic. Qed.
+Print Assumptions c12_atomic_ops.
+
+(* what the revert does in general: under the invariant C between operations, reverting the undo
+   list u on state f yields, at every path, the first-seen recorded content (or the current one) *)
+Theorem c12_revert_spec : forall (u : list (list N * option bytes)) (f : fs),
+  C f u -> forall p, file_at (revert true [] f u) p = expect u f p.
+Proof. exact revert_spec. Qed.
+Print Assumptions c12_revert_spec.
+
+Theorem c12_success_keeps_tree : forall (f : fs) (ops : list op) (g : fs) (c : list (list N)),
+  fs_wf f -> apply_ops true [] f ops = Applied g c -> fs_wf g.
+Proof. exact apply_ops_wf. Qed.
+Print Assumptions c12_success_keeps_tree.
+
+(* the hypotheses are satisfiable by a failing run that has already mutated the workspace *)
+Example c12_atomic_nonvacuous : fs_wf wit_fs /\ apply_patch true [] wit_fs wit_patch = Failed wit_fs ENOENT.
+Proof. exact (conj (wf_single _ _) wit_fixed_run). Qed.
+
+(* atomicity speaks of FILES: directories created by a failed add are left behind (DESIGN §4 C12 N) *)
+Theorem c12_dirs_not_rolled_back_refuted :
+  exists f input g e p, fs_wf f /\ apply_patch true [] f input = Failed g e /\ lookup f p = None /\ lookup g p = Some Dir.
+Proof. exact failed_keeps_dirs_refuted. Qed.
+Print Assumptions c12_dirs_not_rolled_back_refuted.
 
 (* ---- success: the workspace is the result of performing the operations in order (spec_ops has no
    undo bookkeeping), and the reported files are exactly the named ones, sorted, without repeats *)
